@@ -41,7 +41,9 @@ def make_ctx(tier):
 def run(ctx, tier):
     for r, t in (("P1", "encode sets cover every non-printable byte"), ("P2", "the C0 set is used only for opaque paths/hosts"),
                  ("P3", "fast path and domain tables admit printable ASCII only"),
-                 ("P4", "trailing space of an opaque path is never left at the end")):
+                 ("P4", "trailing space of an opaque path is never left at the end"),
+                 ("P5", "IPv4-shapedness is decided on the lower-cased host by every caller of is_ipv4 (else the href "
+                        "produced by a shortcut does not parse again)")):
         ctx.rule(r, t)
     cfgs = C.configs_for(tier, thorough=["release", "devchecks", "amalgamated", "nopattern"])
     fxs = C.load_configs(ctx, cfgs)
@@ -148,3 +150,8 @@ def check(ctx, fx):
                   "clearing the %s no longer strips trailing spaces from an opaque path: the href could end in a space"
                   % ("query" if "search" in q else "fragment"), where=f["loc"].replace("/repo/", ""))
     ctx.floor("P4", n4, 4, "clearing setters")
+    # ---- P5 ----
+    # the fast path (and every other caller) decides "host ends in a number" on the lower-cased host:
+    # otherwise an href like http://foo.0x10/ is produced that does not parse again
+    from rules import lowercase
+    lowercase.check(ctx, "P5", fx)
